@@ -316,7 +316,7 @@ impl Pos {
                     let dir: i8 = if c == Col::W { 1 } else { -1 };
                     let start_rank: i8 = if c == Col::W { 1 } else { 6 };
                     let last_rank: i8 = if c == Col::W { 7 } else { 0 };
-                    let mut push = |to: Sq, out: &mut Vec<Mv>| {
+                    let push = |to: Sq, out: &mut Vec<Mv>| {
                         if rank_of(to) == last_rank {
                             for p in PROMOS {
                                 out.push(Mv::new(s, to, Some(p)));
